@@ -258,7 +258,12 @@ Definition step_checks (cfg : config) (ms : mstate) (o : op) (outs : list out) (
       ck "C06.remotes_filtered"
          (forallb (fun r => negb (rs_tcp r =? TCPTypeActive) && negb (blocked cfg (rs_addr r))) (sn_remotes sn));
       ck "C06.restart_leaves_no_residue"
-         (match o with Restart _ _ => if ret_is outs is_ok then wiped sn else true | _ => true end) ] in
+         (match o with Restart _ _ => if ret_is outs is_ok then wiped sn else true | _ => true end);
+      (* entering Failed releases pairs, candidates, selection and outstanding transactions, and nothing
+         of them comes back while the agent stays Failed *)
+      ck "C06.failed_leaves_no_residue"
+         (if existsb (Z.eqb ConnectionStateFailed) sts || ((sn_conn prev =? ConnectionStateFailed) && (sn_conn sn =? ConnectionStateFailed))
+          then wiped sn else true) ] in
   let c06s :=
     match o with
     | AddRemote c =>
